@@ -16,6 +16,7 @@ import (
 	"github.com/dolthub/go-mysql-server/sql"
 	"github.com/dolthub/go-mysql-server/sql/plan"
 	"github.com/dolthub/go-mysql-server/sql/types"
+	"github.com/dolthub/vitess/go/sqltypes"
 
 	"github.com/dolthub/go-mysql-server/verifharness/hx"
 	"github.com/dolthub/go-mysql-server/verifharness/hx/eng"
@@ -28,14 +29,70 @@ type Row = memtbl.Row
 type IdxDef struct {
 	Cols   []int
 	Unique bool
+	// Prefix lengths of a prefix index (`KEY (s(4))`), parallel to Cols; 0 or missing = the whole
+	// column. nil for an ordinary index (the only form C15 uses).
+	Prefix []int
 }
 
-// Env: all columns are BIGINT; primary-key columns are NOT NULL.
+// Env: columns are BIGINT, or VARCHAR(32) (default, binary collation) where Str says so;
+// primary-key columns are NOT NULL.
 type Env struct {
 	NCols  int
 	PK     []int
 	Idx    []IdxDef
 	NParts int
+	// Str flags the string columns; nil = every column is BIGINT (the only form C15 uses).
+	Str []bool
+}
+
+func (e Env) IsStr(c int) bool { return c < len(e.Str) && e.Str[c] }
+
+func (e Env) HasStr() bool {
+	for _, s := range e.Str {
+		if s {
+			return true
+		}
+	}
+	return false
+}
+
+// PrefixOf returns the prefix length of the j-th column of the index (0 = the whole column).
+func (d IdxDef) PrefixOf(j int) int {
+	if j < len(d.Prefix) {
+		return d.Prefix[j]
+	}
+	return 0
+}
+
+func (d IdxDef) HasPrefix() bool {
+	for _, p := range d.Prefix {
+		if p > 0 {
+			return true
+		}
+	}
+	return false
+}
+
+// PrefixSexp renders the prefix lengths padded to the number of columns.
+func (d IdxDef) PrefixSexp() string {
+	ps := make([]int, len(d.Cols))
+	for j := range ps {
+		ps[j] = d.PrefixOf(j)
+	}
+	return ints(ps)
+}
+
+// ColList renders the column list of CREATE INDEX, with prefix lengths where the index has them.
+func (d IdxDef) ColList() string {
+	var cs []string
+	for j, c := range d.Cols {
+		if p := d.PrefixOf(j); p > 0 {
+			cs = append(cs, fmt.Sprintf("%s(%d)", colName(c), p))
+		} else {
+			cs = append(cs, colName(c))
+		}
+	}
+	return strings.Join(cs, ", ")
 }
 
 type Op struct {
@@ -109,7 +166,11 @@ func Payload(e Env, pm map[string]int, pmKeys map[string]Row, stmts []Stmt) stri
 		if d.Unique {
 			u = "1"
 		}
-		idx = append(idx, hx.List(ints(d.Cols), u))
+		if d.HasPrefix() {
+			idx = append(idx, hx.List(ints(d.Cols), u, d.PrefixSexp()))
+		} else {
+			idx = append(idx, hx.List(ints(d.Cols), u))
+		}
 	}
 	keys := make([]string, 0, len(pm))
 	for k := range pm {
@@ -156,22 +217,22 @@ func NewTable(e *eng.Eng, env Env) (*Table, error) {
 	ctx := e.Ctx()
 	sch := make(sql.Schema, env.NCols)
 	for i := range sch {
-		sch[i] = &sql.Column{Name: colName(i), Type: types.Int64, Nullable: !env.IsPK(i), Source: name, PrimaryKey: env.IsPK(i)}
+		var typ sql.Type = types.Int64
+		if env.IsStr(i) {
+			typ = types.MustCreateStringWithDefaults(sqltypes.VarChar, 32)
+		}
+		sch[i] = &sql.Column{Name: colName(i), Type: typ, Nullable: !env.IsPK(i), Source: name, PrimaryKey: env.IsPK(i)}
 	}
 	pks := sql.NewPrimaryKeySchema(sch, env.PK...)
 	t := memory.NewPartitionedTable(ctx, db.BaseDatabase, name, pks, db.GetForeignKeyCollection(), env.NParts)
 	db.AddTable(name, t)
 	tb := &Table{E: e, Env: env, Name: name, Sess: ctx, PM: map[string]int{}, PMK: map[string]Row{}}
 	for i, d := range env.Idx {
-		var cs []string
-		for _, c := range d.Cols {
-			cs = append(cs, colName(c))
-		}
 		u := ""
 		if d.Unique {
 			u = "UNIQUE "
 		}
-		q := fmt.Sprintf("CREATE %sINDEX %s ON %s (%s)", u, IdxName(i), name, strings.Join(cs, ", "))
+		q := fmt.Sprintf("CREATE %sINDEX %s ON %s (%s)", u, IdxName(i), name, d.ColList())
 		r := e.Query(eng.SameSession(ctx), q)
 		if r.Class() != "ok" {
 			return nil, fmt.Errorf("%s: %s %v %s", q, r.Class(), r.Err, r.Panic)
@@ -187,9 +248,12 @@ func (tb *Table) Drop() {
 func toSQLRow(r Row) sql.Row {
 	out := make(sql.Row, len(r))
 	for i, v := range r {
-		if v.Null {
+		switch {
+		case v.Null:
 			out[i] = nil
-		} else {
+		case v.IsStr:
+			out[i] = v.S
+		default:
 			out[i] = v.I
 		}
 	}
@@ -584,6 +648,10 @@ func keyLess(a, b Row, n int) bool {
 			return true
 		case b[j].Null:
 			return false
+		case a[j].IsStr && b[j].IsStr:
+			if a[j].S != b[j].S {
+				return a[j].S < b[j].S // binary collation, ASCII values
+			}
 		case a[j].I != b[j].I:
 			return a[j].I < b[j].I
 		}
